@@ -7,6 +7,10 @@
 (*  {"ev":"build","n":N,"f":[..],"r":[..],"err":B,"fwd":[..],"ret":[..]}  *)
 (*  {"ev":"rotate","before":[..],"recv":N,"label":N,"after":[..],"want":N} *)
 (*  {"ev":"reverse","before":[..],"after":[..],"want":[..]}                *)
+(*  {"ev":"arrive","n":N,"f":[..],"r":[..],"dir":"fwd"|"ret","block":[..]} *)
+(*    the block a frame carried when the switch of the router at the far   *)
+(*    end of the path handed it to its upper layer (frames that travelled  *)
+(*    through running switch workers of routers in normal/stub/lite mode)  *)
 (***************************************************************************)
 EXTENDS SwitchLabel
 
@@ -31,9 +35,16 @@ Revs == /\ Ev.ev = "reverse"
         /\ ToReturn(Ev.before) = Ev.after
         /\ Ev.after = Ev.want                                   \* equals the path's other block
 
+(* Path level, spec operators only: what reaches the far end reverses to   *)
+(* exactly the path's other block.                                         *)
+Arrive == /\ Ev.ev = "arrive"
+          /\ ToReturn(Ev.block) = IF Ev.dir = "fwd"
+                                   THEN RetBlock(Ev.n, Ev.r, Len(Ev.block))
+                                   ELSE FwdBlock(Ev.n, Ev.f, Len(Ev.block))
+
 TraceNext == /\ l <= Len(Trace)
              /\ l' = l + 1
-             /\ (Build \/ Rot \/ Revs)
+             /\ (Build \/ Rot \/ Revs \/ Arrive)
              /\ UNCHANGED vars
 
 TraceAccepted ==
